@@ -170,18 +170,19 @@ def resolveKeyIfNeeded (c : Ctx) (key : Value) (mapName : String) : ER Lens.Stre
     | none => catchable (unsupportedMapKeyType mapName)
   | _ => unmodelled "stream map key (not in `StreamMapKeyClause`)"
 
-/-- `ApMap::execute`: the value is resolved first, then the `ap` state is merged, then the key is resolved
-(both with `joinable!`), the key-value object goes to the generation the data names, the stub state is pushed -/
+/-- `ApMap::execute`: the value and then the key are resolved first (both with `joinable!`; before the repair in /repo
+the key was resolved after the `ap` state had been consumed), then the `ap` state is merged, the key-value object goes
+to the generation the data names, the stub state is pushed -/
 def execApMap (i : Instr) (key val : Value) (name : String) (pos : Nat) : M Unit :=
   joinable (readER fun c => applyToArgStream c val) >>= fun r =>
   match r with
   | none => pure ()
   | some v =>
-    liftTH i (fun th => th.meetApStart) >>= fun met =>
     joinable (readER fun c => resolveKeyIfNeeded c key name) >>= fun k =>
     match k with
     | none => pure ()
     | some k =>
+      liftTH i (fun th => th.meetApStart) >>= fun met =>
       modifyER (fun c => c.addStreamMapValue k v name (generationOfAp met) pos) >>= fun _ =>
       modifyCtx fun c => { c with th := c.th.meetApEnd [generationStub] }
 
